@@ -31,7 +31,9 @@
 
 static int32_t count_leaves(const parquet_schema_element_t* elements, int32_t count) {
     int32_t leaves = 0;
-    for (int32_t i = 0; i < count; i++) {
+    /* Element 0 is the root group: never a column, even when it has no
+     * children (the legal schema of a table without columns) */
+    for (int32_t i = 1; i < count; i++) {
         if (elements[i].num_children == 0) {
             leaves++;
         }
@@ -236,7 +238,8 @@ carquet_schema_t* build_schema(
     schema->max_def_levels = carquet_arena_calloc(arena, schema->num_leaves, sizeof(int16_t));
     schema->max_rep_levels = carquet_arena_calloc(arena, schema->num_leaves, sizeof(int16_t));
 
-    if (!schema->leaf_indices || !schema->max_def_levels || !schema->max_rep_levels) {
+    if (schema->num_leaves > 0 &&
+        (!schema->leaf_indices || !schema->max_def_levels || !schema->max_rep_levels)) {
         CARQUET_SET_ERROR(error, CARQUET_ERROR_OUT_OF_MEMORY, "Failed to allocate schema arrays");
         return NULL;
     }
